@@ -697,6 +697,7 @@ func (p *c01Pair) dumpCommit(sb *strings.Builder, x int, name string,
 		hid   int
 	}
 	byOut := map[int32]hinfo{}
+	var idxToks []string
 	emit := func(hs []paymentDescriptor, incoming bool) {
 		dir := "o"
 		if incoming {
@@ -722,10 +723,16 @@ func (p *c01Pair) dumpCommit(sb *strings.Builder, x int, name string,
 			}
 			fmt.Fprintf(sb, " H:%s:%d:%d:%d:%d:%d", dir, h.HtlcIndex,
 				uint64(h.Amount), h.Timeout, p.hashID[h.RHash], dust)
+			idxToks = append(idxToks, fmt.Sprintf(" I:%s:%d:%d", dir, h.HtlcIndex, oi))
 		}
 	}
 	emit(c.outgoingHTLCs, false)
 	emit(c.incomingHTLCs, true)
+	// the recorded HTLC -> output index assignment (ignored by parsers that
+	// only know H tokens)
+	for _, t := range idxToks {
+		sb.WriteString(t)
+	}
 	sb.WriteString(" |")
 
 	if c.txn != nil {
@@ -791,6 +798,7 @@ type c01Sched struct {
 	w    *bufio.Writer
 	adds [2]int
 	last *c01Act // last add (for equal hash/amount/expiry duplicates)
+	lastOwn [2]*c01Act // last successful add per node (duplicate families)
 	dead bool    // a delivery was rejected: the link would have failed
 	tamper bool  // this case ends with a corrupted commitment_signed
 
@@ -869,6 +877,59 @@ func (s *c01Sched) settleable(x int) []uint64 {
 		out = append(out, pd.HtlcIndex)
 	}
 	return out
+}
+
+// dupOf derives a new HTLC of node x from its previous one `b`, varying each of
+// (payment hash, amount, expiry) independently.  Amounts are kept non-dust on
+// both commitments most of the time so that the HTLCs share output scripts
+// (same hash) while their values / CLTVs differ or coincide.
+func (s *c01Sched) dupOf(x int, b c01Act) c01Act {
+	r := s.r
+	ch := s.p.Ch[x]
+	ct := ch.channelState.ChanType
+	a := b
+	if r.Intn(4) == 0 {
+		a.HashID = s.p.newHash()
+	}
+	if r.Intn(3) == 0 {
+		a.Expiry = c01Pick(r, uint32(100), 144, 500)
+	}
+	// smallest amount that is non-dust on both commitments at the larger of
+	// the two current fee rates
+	fpk := ch.commitChains.Local.tip().feePerKw
+	if f2 := ch.commitChains.Remote.tip().feePerKw; f2 > fpk {
+		fpk = f2
+	}
+	dust := ch.channelState.LocalChanCfg.DustLimit
+	if d2 := ch.channelState.RemoteChanCfg.DustLimit; d2 > dust {
+		dust = d2
+	}
+	floor := lnwire.NewMSatFromSatoshis(dust + HtlcSuccessFee(ct, fpk) + 2)
+	if r.Intn(8) != 0 && b.Amt < floor {
+		b.Amt = floor + lnwire.MilliSatoshi(r.Intn(3))*1_000_000
+		a.Amt = b.Amt
+	}
+	switch r.Intn(6) {
+	case 0, 1: // same amount
+	case 2:
+		a.Amt = b.Amt + c01Pick(r, lnwire.MilliSatoshi(1), 999, 1000, 1_000_000, 2_345_000)
+	case 3:
+		d := c01Pick(r, lnwire.MilliSatoshi(1), 999, 1000, 1_000_000, 2_345_000)
+		if b.Amt > floor+d {
+			a.Amt = b.Amt - d
+		} else {
+			a.Amt = b.Amt + d
+		}
+	case 4:
+		a.Amt = b.Amt * 2
+	case 5:
+		if b.Amt/2 >= floor {
+			a.Amt = b.Amt / 2
+		} else {
+			a.Amt = b.Amt + 3_000_000
+		}
+	}
+	return a
 }
 
 func (s *c01Sched) pickAmount(x int) lnwire.MilliSatoshi {
@@ -1008,8 +1069,12 @@ func (s *c01Sched) step(eagerRevoke bool, maxAdds int) bool {
 		if s.adds[x] < maxAdds {
 			add(3, func() {
 				var a c01Act
-				if s.last != nil && r.Intn(5) == 0 {
-					a = *s.last // exact duplicate (hash, amount, expiry)
+				if s.lastOwn[x] != nil && r.Intn(3) == 0 {
+					// duplicate family of this node's previous HTLC: hash,
+					// amount and expiry are varied independently
+					a = s.dupOf(x, *s.lastOwn[x])
+				} else if s.last != nil && r.Intn(6) == 0 {
+					a = *s.last // exact duplicate (hash, amount, expiry), any direction
 					if r.Intn(3) == 0 {
 						a.Expiry = c01Pick(r, uint32(100), 144, 500)
 					}
@@ -1021,6 +1086,7 @@ func (s *c01Sched) step(eagerRevoke bool, maxAdds int) bool {
 				if s.runAct(x, a) == "ok" {
 					s.adds[x]++
 					s.last = &a
+					s.lastOwn[x] = &a
 				}
 			})
 		}
